@@ -377,7 +377,7 @@ def f_substring_after(args):
 # ---- regular expressions: decided only on a subset on which XPath/XSD, Rust `regex` and Python `re` agree
 _LIT_SAFE = set("abcdefghijklmnopqrstuvwxyzABCDEFGHIJKLMNOPQRSTUVWXYZ0123456789 ;,:_=!@%<>/'\"-") | set("é中😀")
 _CLASS_SAFE = set("abcdefghijklmnopqrstuvwxyzABCDEFGHIJKLMNOPQRSTUVWXYZ0123456789 ;,_=!@%<>/") | set("é中😀")
-_ESC_ATOM = {"d": r"\d", "s": r"\s", "D": r"\D", "S": r"\S", ".": r"\.", "*": r"\*", "+": r"\+", "?": r"\?", "(": r"\(", ")": r"\)", "|": r"\|", "\\": "\\\\"}
+_ESC_ATOM = {"w": r"\w", "W": r"\W", "d": r"\d", "s": r"\s", "D": r"\D", "S": r"\S", ".": r"\.", "*": r"\*", "+": r"\+", "?": r"\?", "(": r"\(", ")": r"\)", "|": r"\|", "\\": "\\\\"}
 
 
 class _Rx:
@@ -391,6 +391,7 @@ class _Rx:
         self.has_anchor = False
         self.group_nullable_inner = False  # a capturing group whose body can match empty
         self.has_space_class = False
+        self.has_word_class = False
 
     def reject(self, why):
         raise Undecided("regex outside the decided subset: " + why)
@@ -440,7 +441,7 @@ class _Rx:
             if is_anchor:
                 self.reject("quantified anchor")
             if c == "{":
-                m = re.compile(r"\{([0-9]),?([0-9])?\}").match(self.t, self.i)
+                m = re.compile(r"\{([0-9]{1,2}),?([0-9]{1,2})?\}").match(self.t, self.i)
                 if not m:
                     self.reject("malformed bounded repeat")
                 raw = m.group(0)
@@ -488,6 +489,8 @@ class _Rx:
             self.i += 2
             if e in "sS":
                 self.has_space_class = True
+            if e in "wW":
+                self.has_word_class = True
             return _ESC_ATOM[e], False, False
         if c == "^":
             if not (top and pos == 0):
@@ -574,6 +577,9 @@ def rx_compile(pattern, flags, subject):
     pytext, nullable = rx.parse()
     if rx.has_space_class and any(ch.isspace() and ch not in " \t\n" for ch in subject):
         raise Undecided("\\s over whitespace on which the engines' definitions differ")
+    if rx.has_word_class and not all((ch.isascii() and (ch.isalnum() or ch in " ;,.:=!@%<>/'\"-\t\n")) or ch in "é中" for ch in subject):
+        # XPath \\w is [^\\p{P}\\p{Z}\\p{C}] (symbols and emoji are word characters, '_' is not); Rust and Python say the opposite
+        raise Undecided("\\w over characters on which the engines' definitions differ")
     if "\n" in subject and (rx.has_anchor or "m" in flagset):
         raise Undecided("anchors with a newline in the subject")
     if "i" in flagset:
